@@ -259,8 +259,75 @@ fn first_diff(a: &str, b: &str) -> (usize, String, String) {
     (i, ctx(&at), ctx(&bt))
 }
 
+/// Finite tables extracted from the real expander by exhaustive black-box expansion, printed as a Lean file.
+fn tables() {
+    use std::fmt::Write as _;
+    std::panic::set_hook(Box::new(|_| {}));
+    let attrs = ["ord", "partial_ord", "eq", "partial_eq", "hash", "debug", "default", "derive_ex"];
+    let traits = ["Ord", "PartialOrd", "Eq", "PartialEq", "Hash", "Debug", "Default"];
+    let mut out = String::new();
+    out.push_str("-- GENERATED by `xcheck tables` from the real expander (rebuilt from /repo's working tree). Do not edit.\n");
+    out.push_str("namespace DX.Generated\n\n");
+    out.push_str("/-- (helper attribute index, bit mask of derived traits [Ord,PartialOrd,Eq,PartialEq,Hash,Debug,Default], is the attribute consumed?) -/\n");
+    out.push_str("def isMatchTable : List (Nat × Nat × Bool) := [\n");
+    let mut first = true;
+    for (ai, a) in attrs.iter().enumerate() {
+        for mask in 0..128u32 {
+            let list: Vec<&str> = traits.iter().enumerate().filter(|(i, _)| mask >> i & 1 == 1).map(|(_, t)| *t).collect();
+            let attr_src = if *a == "derive_ex" { "# [ derive_ex ( ) ]".to_string() } else { format!("# [ {a} ]") };
+            // on a field, a variant-less struct: is the attribute still there after expansion?
+            let c = Case { id: String::new(), tags: vec![], entry: "attr".into(), args: list.join(" , "),
+                           item: format!("struct X ( {attr_src} u8 ) ;"), segs: vec![] };
+            let kept = match expand_real(&c) {
+                Ok(ts) => flatten(ts).contains(&attr_src),
+                Err(_) => true,
+            };
+            if !first { out.push_str(",\n"); }
+            first = false;
+            let _ = write!(out, "  ({ai}, {mask}, {})", !kept);
+        }
+    }
+    out.push_str("]\n\n");
+    out.push_str("/-- (trait name, tokens between `impl` and `for` of the first generated impl, method names) on `struct X(i8);` -/\n");
+    out.push_str("def traitTable : List (String × String × List String) := [\n");
+    let ops = ["Add", "BitAnd", "BitOr", "BitXor", "Div", "Mul", "Rem", "Shl", "Shr", "Sub"];
+    let mut names: Vec<String> = ops.iter().map(|s| s.to_string()).collect();
+    names.extend(ops.iter().map(|s| format!("{s}Assign")));
+    for t in ["Neg", "Not", "Ord", "PartialOrd", "Eq", "PartialEq", "Hash", "Copy", "Clone", "Debug", "Default", "Deref", "DerefMut"] {
+        names.push(t.to_string());
+    }
+    first = true;
+    for n in &names {
+        let c = Case { id: String::new(), tags: vec![], entry: "attr".into(), args: n.clone(), item: "struct X ( i8 ) ;".into(), segs: vec![] };
+        let (path, methods) = match expand_real(&c).ok().and_then(|ts| split_real(ts, "attr").ok()) {
+            Some(segs) if segs.len() >= 2 && segs[1].kind == SegKind::T => {
+                let toks: Vec<&str> = segs[1].toks.split(' ').collect();
+                let i = toks.iter().position(|t| *t == "impl").unwrap_or(0);
+                let j = toks.iter().position(|t| *t == "for").unwrap_or(i);
+                let path = toks[i + 1..j].join(" ");
+                let mut ms = Vec::new();
+                for k in 0..toks.len() {
+                    if toks[k] == "fn" && k + 1 < toks.len() { ms.push(toks[k + 1].to_string()); }
+                }
+                (path, ms)
+            }
+            _ => ("<error>".to_string(), vec![]),
+        };
+        if !first { out.push_str(",\n"); }
+        first = false;
+        let ms: Vec<String> = methods.iter().map(|m| format!("\"{m}\"")).collect();
+        let _ = write!(out, "  (\"{n}\", \"{path}\", [{}])", ms.join(", "));
+    }
+    out.push_str("]\n\nend DX.Generated\n");
+    print!("{out}");
+}
+
 fn main() {
     let args: Vec<String> = std::env::args().collect();
+    if args.len() == 2 && args[1] == "tables" {
+        tables();
+        return;
+    }
     if args.len() < 3 {
         eprintln!("usage: xcheck l1|expand <casefile|-> [out.jsonl]");
         std::process::exit(2);
